@@ -33,13 +33,13 @@ sphere-in `‖p−c‖ ≤ R`, sphere-out `‖p−c‖ ≥ R`, rectangle-in all 
 (the code's `out` test is one-sided in `z`; it never accepts a point inside).  Any number and mix of
 restraints, any `bendiness`/overlap outcome. -/
 theorem C07_geom_sound (regions : List Region) (drs : List DRestr) (opt : Option RwOption)
-    (posOf : Nat → Option V3) (box last p : V3) (bend overlap : Bool)
-    (h : acceptStep regions drs opt posOf box last p bend overlap = true) :
-    ∀ r ∈ regions, regionHolds p r :=
-  fulfill_sound p regions (acceptStep_parts h).1
+    (posOf : Nat → Option V3) (box last step : V3) (bend overlap : Bool)
+    (h : acceptStep regions drs opt posOf box last step bend overlap = true) :
+    ∀ r ∈ regions, regionHolds (wrapV (last.add step) box) r :=
+  fulfill_sound _ regions (acceptStep_parts h).1
 
 example : acceptStep [.sphere .inside ⟨5, 5, 5⟩ 3, .rectangle .outside ⟨5, 5, 5⟩ 1 1 1,
-    .cylinder .outside ⟨5, 5, 5⟩ 1 1] [] none (fun _ => none) ⟨10, 10, 10⟩ ⟨5, 5, 4⟩ ⟨5, 5, 3⟩ true false = true := by decide +kernel
+    .cylinder .outside ⟨5, 5, 5⟩ 1 1] [] none (fun _ => none) ⟨10, 10, 10⟩ ⟨5, 5, 4⟩ ⟨0, 0, -1⟩ true false = true := by decide +kernel
 
 /-- The first residue of a molecule is placed at the start point only if the start point satisfies the
 residue's own region restraints. -/
@@ -51,24 +51,24 @@ theorem C07_geom_sound_start (regions : List Region) (start : V3) (overlap : Boo
 example : acceptStart [.sphere .outside ⟨5, 5, 5⟩ 3, .cylinder .inside ⟨5, 5, 1⟩ 1 2] ⟨5, 5, 1⟩ false = true := by decide +kernel
 
 /-- An accepted step has `sign(n·step) = sign(angle)` and makes an angle of at most `|angle|` with the
-normal: `n·step ≥ cos|angle|·‖n‖‖step‖` (`cosGe`, decided on squares).  `step` is the vector the code
-forms, `point - old_point`, with `point` already wrapped into the box. -/
+normal: `n·step ≥ cos|angle|·‖n‖‖step‖` (`cosGe`, decided on squares).  `step` is the trial step itself
+(`unwrapped_point - last_point`, fix b739cad), also when the new position is wrapped across a box face. -/
 theorem C07_direction (regions : List Region) (drs : List DRestr) (o : RwOption)
-    (posOf : Nat → Option V3) (box last p : V3) (bend overlap : Bool)
-    (h : acceptStep regions drs (some o) posOf box last p bend overlap = true) :
-    directionHolds o (p.sub last) :=
-  isRestricted_sound o (p.sub last) (acceptStep_parts h).2.2.1
+    (posOf : Nat → Option V3) (box last step : V3) (bend overlap : Bool)
+    (h : acceptStep regions drs (some o) posOf box last step bend overlap = true) :
+    directionHolds o step :=
+  isRestricted_sound o step (acceptStep_parts h).2.2.1
 
 /-- the same for an acute bound and a positive angle, in the form
 `(n·step)² ≥ cos²·‖n‖²‖step‖²` with `n·step > 0` -/
 theorem C07_direction_acute (regions : List Region) (drs : List DRestr) (o : RwOption)
-    (posOf : Nat → Option V3) (box last p : V3) (bend overlap : Bool)
+    (posOf : Nat → Option V3) (box last step : V3) (bend overlap : Bool)
     (hs : o.sgn = 1) (hc : 0 < o.cosRef)
-    (h : acceptStep regions drs (some o) posOf box last p bend overlap = true) :
-    0 < o.normal.dot (p.sub last) ∧
-      o.cosRef * o.cosRef * (o.normal.nsq * (p.sub last).nsq) ≤ o.normal.dot (p.sub last) * o.normal.dot (p.sub last) := by
-  obtain ⟨h1, h2⟩ := C07_direction regions drs o posOf box last p bend overlap h
-  have hpos : 0 < o.normal.dot (p.sub last) := by
+    (h : acceptStep regions drs (some o) posOf box last step bend overlap = true) :
+    0 < o.normal.dot step ∧
+      o.cosRef * o.cosRef * (o.normal.nsq * step.nsq) ≤ o.normal.dot step * o.normal.dot step := by
+  obtain ⟨h1, h2⟩ := C07_direction regions drs o posOf box last step bend overlap h
+  have hpos : 0 < o.normal.dot step := by
     rw [hs] at h1
     unfold ratSign at h1
     split at h1
@@ -82,8 +82,15 @@ theorem C07_direction_acute (regions : List Region) (drs : List DRestr) (o : RwO
   · exact h3
   · exact absurd h3 (not_lt.mpr hpos.le)
 
-example : acceptStep [] [] (some ⟨⟨0, 0, 1⟩, 1, 1 / 2⟩) (fun _ => none) ⟨10, 10, 10⟩ ⟨5, 5, 5⟩ ⟨5, 11 / 2, 6⟩
+example : acceptStep [] [] (some ⟨⟨0, 0, 1⟩, 1, 1 / 2⟩) (fun _ => none) ⟨10, 10, 10⟩ ⟨5, 5, 5⟩ ⟨0, 1 / 2, 1⟩
     true false = true := by decide +kernel
+
+-- a step upward through the top face of a 3 nm box is accepted (new position z = 3/10), the same step
+-- downward through the bottom face is rejected: the direction is judged on the step, not on the wrapped point
+example : acceptStep [] [] (some ⟨⟨0, 0, 1⟩, 1, 0⟩) (fun _ => none) ⟨3, 3, 3⟩ ⟨1, 1, 14 / 5⟩ ⟨0, 0, 1 / 2⟩ true false = true ∧
+    wrapV ((⟨1, 1, 14 / 5⟩ : V3).add ⟨0, 0, 1 / 2⟩) ⟨3, 3, 3⟩ = ⟨1, 1, 3 / 10⟩ ∧
+    acceptStep [] [] (some ⟨⟨0, 0, 1⟩, 1, 0⟩) (fun _ => none) ⟨3, 3, 3⟩ ⟨1, 1, 1 / 5⟩ ⟨0, 0, -1 / 2⟩ true false = false := by
+  decide +kernel
 
 /-- Distance restraints.  For a restraint `(ref, target, d, tol)` accepted by `set_distance_restraint`
 on ANY search tree, the two nodes are joined by a tree path `r … t` of any length (`r` the earlier
@@ -96,14 +103,14 @@ theorem C07_distance_window (tree : List (Nat × Nat)) (store store' : DStore) (
       pathFrom tree r t = some (r :: mid ++ [t]) ∧
       (t ∉ r :: mid →
         store'.get t = store.get t ++ [⟨r, d + tol + avg, d - tol⟩] ∧
-        ∀ (regions : List Region) (opt : Option RwOption) (posOf : Nat → Option V3) (box last p q : V3)
+        ∀ (regions : List Region) (opt : Option RwOption) (posOf : Nat → Option V3) (box last step q : V3)
           (bend overlap : Bool),
-          acceptStep regions (store'.get t) opt posOf box last p bend overlap = true → posOf r = some q →
-          inWindow (miSq p q box) (d - tol) (d + tol + avg)) := by
+          acceptStep regions (store'.get t) opt posOf box last step bend overlap = true → posOf r = some q →
+          inWindow (miSq (wrapV (last.add step) box) q box) (d - tol) (d + tol + avg)) := by
   obtain ⟨r, t, mid, hrt, hpath, hstore⟩ := setDistanceRestraint_target tree store store' target ref d avg tol hset
   refine ⟨r, t, mid, hrt, hpath, fun hnd => ⟨hstore hnd, ?_⟩⟩
-  intro regions opt posOf box last p q bend overlap hacc hq
-  have hm := milestones_sound posOf box p (store'.get t) (acceptStep_parts hacc).2.1
+  intro regions opt posOf box last step q bend overlap hacc hq
+  have hm := milestones_sound posOf box _ (store'.get t) (acceptStep_parts hacc).2.1
     ⟨r, d + tol + avg, d - tol⟩ (by rw [hstore hnd]; simp) q hq
   exact hm
 
@@ -113,12 +120,12 @@ example : setDistanceRestraint [(0, 1), (1, 2), (2, 3)] [] 3 0 2 1 (1 / 4)
 /-- The window test itself, for any stored entry: an accepted position lies inside every window whose
 reference residue is already placed. -/
 theorem C07_milestones_sound (regions : List Region) (drs : List DRestr) (opt : Option RwOption)
-    (posOf : Nat → Option V3) (box last p : V3) (bend overlap : Bool)
-    (h : acceptStep regions drs opt posOf box last p bend overlap = true) :
-    ∀ r ∈ drs, ∀ q, posOf r.ref = some q → inWindow (miSq p q box) r.lb r.ub :=
-  milestones_sound posOf box p drs (acceptStep_parts h).2.1
+    (posOf : Nat → Option V3) (box last step : V3) (bend overlap : Bool)
+    (h : acceptStep regions drs opt posOf box last step bend overlap = true) :
+    ∀ r ∈ drs, ∀ q, posOf r.ref = some q → inWindow (miSq (wrapV (last.add step) box) q box) r.lb r.ub :=
+  milestones_sound posOf box _ drs (acceptStep_parts h).2.1
 
-example : acceptStep [] [⟨0, 2, 1⟩] none (fun _ => some ⟨1 / 2, 0, 0⟩) ⟨4, 4, 4⟩ ⟨3, 1, 0⟩ ⟨3, 0, 0⟩ true false = true := by decide +kernel
+example : acceptStep [] [⟨0, 2, 1⟩] none (fun _ => some ⟨1 / 2, 0, 0⟩) ⟨4, 4, 4⟩ ⟨3, 1, 0⟩ ⟨0, -1, 0⟩ true false = true := by decide +kernel
 
 /-- Ring closure, every ring size.  For a ring of `n ≥ 3` residues grown from residue 0 with the tree
 constructor that `MetaMolecule.search_tree` calls for `dfs = True` (read from the source by the
